@@ -177,3 +177,26 @@ mutant("c01-input-assertion-removed", "C01", "jax2onnx/converter/lowering_dispat
 mutant("c01-bound-key-dropped-by-lower", "C01", "jax2onnx/plugins/jax/numpy/transpose.py", "return cls._PRIM.bind(arr, permutation=axes_tuple)", "return cls._PRIM.bind(arr, permutation=axes_tuple, reverse_axes=False)", expect="reverse_axes")
 benign("c01-benign-param-via-subscript", "C01", "jax2onnx/plugins/jax/lax/cumsum.py", '        reverse = bool(params.get("reverse", False))', '        reverse = bool(params["reverse"]) if "reverse" in params else False')
 mutant("c01-conv-batch-groups-ignored", "C01", "jax2onnx/plugins/jax/lax/conv.py", '        batch_groups = int(params.get("batch_group_count", 1) or 1)\n', "        batch_groups = 1\n", expect="batch_group_count")
+
+# ----------------------------------------------------------------------------- C18
+UIF = "jax2onnx/user_interface.py"
+mutant("c18-revert-narrowing-cast", "C18", UIF, "            got_cmp = got_arr\n            if _is_floating_dtype(expected_arr) and _is_floating_dtype(got_arr):\n                got_cmp = got_arr.astype(expected_arr.dtype, copy=False)", "            got_cmp = got_arr.astype(expected_arr.dtype, copy=False)", expect="R-C18b")
+mutant("c18-int-branch-cast-to-reference", "C18", UIF, "            if not np.array_equal(expected_arr, got_arr):", "            if not np.array_equal(expected_arr, got_arr.astype(expected_arr.dtype)):", expect="R-C18b")
+mutant("c18-shape-check-removed", "C18", UIF, "        if expected_arr.shape != got_arr.shape:\n            return (\n                False,", "        if False:\n            return (\n                False,", expect="shape-comparison")
+mutant("c18-count-check-removed", "C18", UIF, "    if len(jax_outputs) != len(ort_outputs):\n        return (\n            False,", "    if len(jax_outputs) > 10**9:\n        return (\n            False,", expect="count-comparison")
+mutant("c18-compares-reference-with-itself", "C18", UIF, "            if not np.array_equal(expected_arr, got_arr):", "            if not np.array_equal(expected_arr, expected_arr):", expect="operands")
+mutant("c18-failure-reported-as-match", "C18", UIF, '                return (False, f"Output {idx} mismatch (non-floating tensors differ)")', '                return (True, f"Output {idx} mismatch (non-floating tensors differ)")', expect="value-comparison")
+mutant("c18-missing-feed-skipped", "C18", UIF, "            except StopIteration as exc:  # pragma: no cover - defensive\n                raise ValueError(\n                    f\"Not enough positional inputs provided for ORT (missing value for '{name}')\"\n                ) from exc", "            except StopIteration:  # pragma: no cover - defensive\n                continue", expect="feed-every-input")
+mutant("c18-x64-context-dropped", "C18", UIF, "    with _temporary_x64(enable_double_precision):\n        with jax.default_matmul_precision(\"float32\"):\n            return _run_allclose(",
+       "    jax.config.update(\"jax_enable_x64\", bool(enable_double_precision))\n    if True:\n        with jax.default_matmul_precision(\"float32\"):\n            return _run_allclose(", expect="temporary-x64")
+benign("c18-benign-eq-form", "C18", UIF, "        if expected_arr.shape != got_arr.shape:", "        if got_arr.shape != expected_arr.shape:")
+
+# ----------------------------------------------------------------------------- C09
+mutant("c09-default-float64-constant", "C09", "jax2onnx/plugins/jax/lax/rsqrt.py", "            np.asarray(1.0, dtype=np_dtype),", "            np.asarray(1.0),", expect="bind_const_for_var")
+mutant("c09-default-float64-half", "C09", "jax2onnx/plugins/jax/lax/round.py", "np.asarray(0.5, dtype=np_dtype)", "np.asarray(0.5)", expect="round.py")
+mutant("c09-np-ones-without-dtype", "C09", "jax2onnx/plugins/jax/lax/rsqrt.py", "            np.asarray(1.0, dtype=np_dtype),", "            np.ones(()),", expect="np.ones")
+mutant("c09-saved-flag-read-after-update", "C09", UIF, '    prev = jax.config.jax_enable_x64\n    try:\n        if enabled != prev:\n            jax.config.update("jax_enable_x64", enabled)\n        yield',
+       '    try:\n        jax.config.update("jax_enable_x64", enabled)\n        prev = jax.config.jax_enable_x64\n        yield', expect="R-C09a")
+mutant("c09-restore-writes-constant", "C09", "jax2onnx/converter/conversion_api.py", '        if previous != target:\n            jax.config.update("jax_enable_x64", previous)', '        if previous != target:\n            jax.config.update("jax_enable_x64", False)', expect="R-C09a")
+benign("c09-benign-positional-dtype", "C09", "jax2onnx/plugins/jax/lax/round.py", "np.asarray(0.5, dtype=np_dtype)", "np.array(0.5, np_dtype)")
+benign("c09-benign-astype", "C09", "jax2onnx/plugins/jax/lax/round.py", "np.asarray(0.5, dtype=np_dtype)", "np.asarray(0.5).astype(np_dtype)")
